@@ -426,6 +426,26 @@ pub fn gen_ops(rng: &mut Rng, count: usize, thorough: bool, out: &mut Vec<String
 
 /// bld.write (C12): every serialisation path of a builder
 pub fn gen_write(rng: &mut Rng, count: usize, thorough: bool, out: &mut Vec<String>) {
+    if count > 0 {
+        // a builder whose attributes exceed the 16-bit length field (every attribute individually in range): all paths must
+        // still agree byte for byte
+        let mut ops: Vec<String> = vec![];
+        let n = 87 + rng.below(6) as usize;
+        for k in 0..n {
+            let vl = 756 + rng.below(8) as usize;
+            let v = rng.bytes(vl);
+            ops.push(format!("{}/{:04x}/{}", if k % 2 == 0 { "r" } else { "ro" }, 0x9000 + k, hex_or_dash(&v)));
+        }
+        ops.push("q/-/-".into());
+        ops.push("w/70000/aa".into());
+        ops.push("w/66000/ff".into());
+        ops.push("own".into());
+        ops.push("q/-/-".into());
+        ops.push("w/70000/00".into());
+        ops.push("clone".into());
+        ops.push("q/-/-".into());
+        out.push(format!("{} ops={}", header(rng), ops.join(";")));
+    }
     for i in 0..count {
         let mut ops: Vec<String> = vec![];
         let mut used = vec![];
